@@ -16,6 +16,10 @@ func (p *Program) Source() string {
 		// non-tail recursion with a few locals per frame, then the closure is called at the bottom
 		b.WriteString("def deep(n: Int, f: ||: Int): Int\n  a := n + 1\n  b := a * 2\n  if n <= 0\n    r := f()\n    return r\n  end\n  r := deep(n - 1, f)\n  (r + b) - b\nend\n")
 	}
+	if p.UsesTh {
+		// a bytecode method that throws: the callee of explicit `return th(...)` statements (tail calls)
+		b.WriteString("def th(id: Int, v: Int): Int\n  println(\"h${id}\")\n  throw unchecked :a if v > 2\n  v\nend\n")
+	}
 	for _, m := range p.Methods {
 		printStmt(&b, m, 0)
 	}
